@@ -6,12 +6,15 @@ Design level : specs/Enum.tla: ideal = C11 6.7.2.2 value rule + GCC's choice of 
                b_new_enum_type, convert_cdata_to_enum_string, Recompiler._enum_ctx.  MC_Enum (TLC,
                int = 3 bits, long = 5 bits): every declaration of <= 2 enumerators with explicit
                values over the whole range of long/unsigned long, implicit or referring, and every
-               declaration of <= 3 (thorough: 4) enumerators over the boundary values; three broken
+               declaration of <= 3 (thorough: 4) enumerators over the boundary values; every declaration of
+               <= 2 enumerators over boundary values + character constants ('c' / -'c': every simple escape
+               sequence of C11 6.4.4.4, \\0-\\7, plain characters; int = 9, long = 10 bits); four broken
                variants must be rejected.  PlatformBV (integers beyond TLC's 32 bits) is itself
                model-checked against TLC's native arithmetic (MC_PlatformBV).
 Binding      : (spec -> code) every boundary declaration TLC enumerated is mapped to the true widths
-               (the boundary values of int/unsigned/long/unsigned long) and replayed; (code -> spec)
-               random declarations from ctx.rng.  gcc reports sizeof, signedness and every value;
+               (the boundary values of int/unsigned/long/unsigned long) and replayed, incl. the
+               declarations with character constants (all single ones, a sample of the pairs); (code -> spec)
+               random declarations from ctx.rng (integer literals, implicit, referring, character constants).  gcc reports sizeof, signedness and every value;
                cffi is run in-line (lib.NAME and typeof().relements), out-of-line ABI and API, with
                ffi.string(ffi.cast(enum, v)) for every declared value, its neighbours and range ends.
                Trace_Enum recomputes the ideal at 32/64 bits: gcc must agree (else machinery error),
@@ -23,15 +26,16 @@ from harness import types_enum as te
 
 LEVEL = "model_checking"
 XSS = {"JAVA_TOOL_OPTIONS": "-Xss64m -XX:ParallelGCThreads=2 -Xms256m"}
-VARIANTS = ("fwddict", "signle", "rangele")
+VARIANTS = ("fwddict", "signle", "rangele", "rawesc")
 
 CFG = """SPECIFICATION Spec
 CONSTANTS LB = 2
-  IntBits = 3
-  LongBits = 5
+  IntBits = %d
+  LongBits = %d
   MaxLen = %d
   PrintUpTo = %d
   Full = %s
+  CharLevel = %d
   Variant = "%s"
 INVARIANT ValuesOK
 INVARIANT BaseOK
@@ -39,13 +43,18 @@ INVARIANT StringOK
 CHECK_DEADLOCK FALSE
 """
 
-# MC_Enum's boundary values (IntBits = 3, LongBits = 5) -> the same boundaries at 32/64 bits
-SYM = {-16: -2**63, -15: -2**63 + 1, -5: -2**31 - 1, -4: -2**31, -1: -1, 0: 0, 1: 1, 3: 2**31 - 1, 4: 2**31,
-       7: 2**32 - 1, 8: 2**32, 15: 2**63 - 1, 16: 2**63, 31: 2**64 - 1}
+def sym(ib, lb):
+    """MC_Enum's boundary values at IntBits = ib, LongBits = lb -> the same boundaries at 32/64 bits"""
+    return {-2**(lb - 1): -2**63, -2**(lb - 1) + 1: -2**63 + 1, -2**(ib - 1) - 1: -2**31 - 1, -2**(ib - 1): -2**31,
+            -1: -1, 0: 0, 1: 1, 2**(ib - 1) - 1: 2**31 - 1, 2**(ib - 1): 2**31, 2**ib - 1: 2**32 - 1, 2**ib: 2**32,
+            2**(lb - 1) - 1: 2**63 - 1, 2**(lb - 1): 2**63, 2**lb - 1: 2**64 - 1}
 
 
-def cfg(maxlen, printupto, full, variant="faithful"):
-    return CFG % (maxlen, printupto, "TRUE" if full else "FALSE", variant)
+CHARBITS = (9, 10)      # the character-constant run: all values of char (and their negations) fit in "int"
+
+
+def cfg(maxlen, printupto, full, variant="faithful", charlevel=0, bits=(3, 5)):
+    return CFG % (bits[0], bits[1], maxlen, printupto, "TRUE" if full else "FALSE", charlevel, variant)
 
 
 def tuples(out, head):
@@ -71,14 +80,17 @@ def tuples(out, head):
     return res
 
 
-def decls_from_tlc(out, prefix):
-    decls = []
-    for (nitems,) in tuples(out, "ENUM"):
+def decls_from_tlc(out, prefix, bits=(3, 5), keep=None):
+    """keep(list of printed declarations) -> the sub-list to replay (None: all)"""
+    decls, smap = [], sym(*bits)
+    printed = [t[0] for t in tuples(out, "ENUM")]
+    for nitems in (printed if keep is None else keep(printed)):
         ident = "%s%d" % (prefix, len(decls))
         items = []
         for i, it in enumerate(nitems):
             items.append({"name": "E%s_%s" % (ident, it["name"]), "k": it["k"], "ref": it["ref"],
-                          "v": SYM[it["v"]] if it["k"] == "explicit" else 0})
+                          "v": smap[it["v"]] if it["k"] == "explicit" else 0,
+                          "sp": list(it["sp"]), "cneg": bool(it["cneg"])})
         if not te.defined(items):
             raise core.MachineryError("TLC printed a declaration the harness considers undefined: %r" % items)
         decls.append({"id": ident, "items": items})
@@ -87,10 +99,15 @@ def decls_from_tlc(out, prefix):
 
 def measure(ctx, decls):
     """-> trace records"""
+    for d in decls:
+        for it in d["items"]:                   # replay files written before the character-constant dimension
+            it.setdefault("sp", [])
+            it.setdefault("cneg", False)
     texts = {d["id"]: te.render(d, ctx.rng) for d in decls}
     g = te.parse_gcc(core.gcc_run(te.gcc_source(decls, [texts[d["id"]] for d in decls]), ctx.tmp,
                                   name="enum_probe_%d" % len(ctx.cov["tlc_runs"])))
-    queries = {d["id"]: te.queries_for(d, g[d["id"]]["bits"], g[d["id"]]["signed"], ctx.rng) for d in decls}
+    queries = {d["id"]: te.queries_for(d, g[d["id"]]["bits"], g[d["id"]]["signed"], ctx.rng, vals=g[d["id"]]["vals"])
+               for d in decls}
     c = te.measure_cffi(decls, texts, queries, ctx.tmp, jobs=3)
     recs = []
     for d in decls:
@@ -142,6 +159,24 @@ def shape(rec):
     return cls
 
 
+def culprit(rec, clause, k):
+    """':charconst:<spelling>' if the enumerator the verdict points at takes its value from a character constant
+    (directly, as the start of an implicit run, or through a reference); ':charconst' if the declaration has one"""
+    items = rec["items"]
+    if clause == "values" and 1 <= k <= len(items):
+        i = k - 1
+        while i >= 0 and items[i]["k"] in ("implicit", "ref"):
+            i = items[i]["ref"] - 1 if items[i]["k"] == "ref" else i - 1
+        if i >= 0 and items[i]["k"] == "char":
+            return ":charconst:'%s'" % "".join(map(chr, items[i]["sp"]))
+    if clause == "rejected" and any(it["k"] == "char" and len(it["sp"]) > 2 for it in items):
+        return ":charconst:numeric-escape"          # octal escape of 2-3 digits / hexadecimal escape (VERIF_C10_NUMESC=1)
+    chars = sorted(set("".join(map(chr, it["sp"])) for it in items if it["k"] == "char"))
+    if len(chars) == 1:
+        return ":charconst:'%s'" % chars[0]
+    return ":charconst" if chars else ""
+
+
 def judge(ctx, recs, verdicts):
     byid = {r["id"]: r for r in recs}
     div = ctx.cov.setdefault("model_divergences", [])
@@ -157,7 +192,7 @@ def judge(ctx, recs, verdicts):
                 seen.add(who)
                 mode = who[5:]
                 obs = [o for o in rec["cffi"] if o["mode"] == mode][0]
-                ctx.violation("enum:%s:%s:%s" % (mode, clause, shape(rec)),
+                ctx.violation("enum:%s:%s:%s%s" % (mode, clause, shape(rec), culprit(rec, clause, k)),
                               "%s [%s mode]: %s (item/query %d)" % (CLAUSE.get(clause, clause), mode, rec["text"], k),
                               {"decl": {"id": ident, "items": [dict(it, v=te.dec(it["v"])) for it in rec["items"]]},
                                "text": rec["text"], "gcc": rec["gcc"], "observed": obs, "clause": clause})
@@ -171,33 +206,37 @@ def judge(ctx, recs, verdicts):
 def design_level(ctx):
     quick = ctx.quick
     runs = [("MC_Enum(<=2 enumerators, all values of long/unsigned long, int=3 long=5 bits)", cfg(2, 0, True), 4),
-            ("MC_Enum(<=%d enumerators, boundary values)" % (3 if quick else 4), cfg(3 if quick else 4, 2 if quick else 3, False), 6)]
+            ("MC_Enum(<=%d enumerators, boundary values)" % (3 if quick else 4), cfg(3 if quick else 4, 2 if quick else 3, False), 6),
+            ("MC_Enum(<=2 enumerators, boundary values + character constants: every simple escape, \\0-\\7, plain; "
+             "int=%d long=%d bits)" % CHARBITS, cfg(2, 2, False, charlevel=3 if quick else 2, bits=CHARBITS), 3)]
 
     def mc(a):
         return core.tlc("MC_Enum", cfg_text=a[1], workers=a[2], timeout=3000, env=XSS)
 
     def variant(v):
+        if v == "rawesc":      # escapes evaluate to the code of the letter (the defect fixed by 4d735ce)
+            return core.tlc("MC_Enum", cfg_text=cfg(1, 0, False, v, charlevel=2, bits=CHARBITS), workers=1, timeout=900, env=XSS)
         return core.tlc("MC_Enum", cfg_text=cfg(2, 0, False, v), workers=2, timeout=900, env=XSS)
 
     def bv(_):
         return core.tlc("MC_PlatformBV", cfg_text="INIT Init\nNEXT Next\nCONSTANTS LB = 2\n  R = %d\n" % (10 if quick else 40),
                         workers=1, timeout=3000, env=XSS)
-    with concurrent.futures.ThreadPoolExecutor(max_workers=6) as ex:
+    with concurrent.futures.ThreadPoolExecutor(max_workers=8) as ex:
         fm = [ex.submit(mc, a) for a in runs]
         fv = [ex.submit(variant, v) for v in VARIANTS]
         fb = ex.submit(bv, None)
-        out = None
+        outs = []
         for a, f in zip(runs, fm):
             r = f.result()
             ctx.add_tlc(a[0], r)
-            out = r.out
+            outs.append(r.out)
         for v, f in zip(VARIANTS, fv):
             r = f.result()
             ctx.add_tlc("sanity:" + v, r, require_ok=False, count_states=False)
             if r.ok or not r.invariant_violated:
                 raise core.MachineryError("broken variant %s of the enum model was not rejected by TLC\n%s" % (v, r.out[-1500:]))
         ctx.add_tlc("MC_PlatformBV(limb arithmetic = native arithmetic)", fb.result(), count_states=False)
-    return out
+    return outs[1], outs[2]
 
 
 def run(ctx):
@@ -206,10 +245,21 @@ def run(ctx):
     rnd = [te.random_enum(ctx.rng, "r%d" % i) for i in range(n)]
     with concurrent.futures.ThreadPoolExecutor(max_workers=2) as ex:
         fr = ex.submit(measure, ctx, rnd)                   # code -> spec measurements meanwhile
-        out = design_level(ctx)
+        out, cout = design_level(ctx)
         decls = decls_from_tlc(out, "d")
         if len(decls) < 100:
             raise core.MachineryError("MC_Enum printed only %d declarations" % len(decls))
+
+        def keep(printed):      # every single-enumerator declaration, a sample of the two-enumerator ones
+            one = [p for p in printed if len(p) == 1]
+            two = [p for p in printed if len(p) == 2]
+            if len(one) < 2 * 26 or len(two) < 500:
+                raise core.MachineryError("MC_Enum (character constants) printed only %d + %d declarations"
+                                          % (len(one), len(two)))
+            return one + ctx.rng.sample(two, min(len(two), 60 if quick else 1500))
+        cdecls = decls_from_tlc(cout, "c", CHARBITS, keep)
+        ctx.cov["char_constant_declarations"] = len(cdecls)
+        decls += cdecls
         rrecs = fr.result()
     recs = measure(ctx, decls)                              # spec -> code
     allrecs = recs + rrecs
@@ -268,10 +318,11 @@ def selftest(ctx):
 META = {
     "category": "model_checking",
     "text": "TLC checks, for every enum declaration of <= 2 enumerators over the whole value range of long/unsigned long "
-            "(int = 3 bits, long = 5 bits) and <= 3-4 enumerators over the boundary values (explicit, implicit, "
-            "referring), that the transcribed _build_enum_type / build_baseinttype / b_new_enum_type reverse loop / "
+            "(int = 3 bits, long = 5 bits), <= 3-4 enumerators over the boundary values (explicit, implicit, "
+            "referring) and <= 2 enumerators over boundary values and character constants (every simple escape "
+            "sequence, one-digit octal escapes, plain characters, optionally negated), that the transcribed _build_enum_type / build_baseinttype / b_new_enum_type reverse loop / "
             "enum-to-string code equals the ideal (C value rule, GCC's underlying type rule, first-declared-name law) "
-            "and rejects three broken variants; the enumerated boundary declarations mapped to 32/64 bits and "
+            "and rejects four broken variants; the enumerated boundary declarations mapped to 32/64 bits and "
             "thousands of random declarations are compiled by gcc and declared in cffi in-line, out-of-line ABI and "
             "API mode, and TLC validates all measurements (values, sizeof, signedness, ffi.string of every declared "
             "and neighbouring value) against the ideal at the true widths with model-checked limb arithmetic.",
